@@ -230,3 +230,47 @@ def inline_new_temps(fn, canon):
             del b[i]
             total += 1
     return total
+
+
+# ------------------------------------------------------------------------------------------------------------------------------ C side
+def c_locals(fn):
+    """names of the variables declared inside a C function (reduced clang node), in order of declaration"""
+    out = []
+    def walk(n, top):
+        if n.get('kind') == 'VarDecl' and n.get('name') and not top:
+            if n['name'] not in out:
+                out.append(n['name'])
+        for c in n.get('inner', []) or []:
+            walk(c, False)
+    for c in fn.get('inner', []) or []:
+        if c.get('kind') == 'CompoundStmt':
+            walk(c, False)
+    return out
+
+def c_normalise(facts):
+    """the same pairing of missing and new local names as on the Python side, applied to the reduced clang facts in memory"""
+    t = table().get('__c__') or {}
+    done = {}
+    for build, decls in facts.items():
+        canon_b = t.get(build) or {}
+        for d in decls:
+            if d.get('kind') != 'FunctionDecl' or d.get('name') not in canon_b:
+                continue
+            canon = canon_b[d['name']]
+            cur = c_locals(d)
+            ks, cs = set(canon), set(cur)
+            new = [x for x in cur if x not in ks]
+            missing = [x for x in canon if x not in cs]
+            if not new or len(new) != len(missing):
+                continue
+            mp = dict(zip(new, missing))
+            def ren(n):
+                if n.get('kind') == 'VarDecl' and n.get('name') in mp:
+                    n['name'] = mp[n['name']]
+                if n.get('kind') == 'DeclRefExpr' and n.get('refkind') == 'VarDecl' and n.get('ref') in mp:
+                    n['ref'] = mp[n['ref']]
+                for c in n.get('inner', []) or []:
+                    ren(c)
+            ren(d)
+            done['%s:%s' % (build, d['name'])] = mp
+    return done
